@@ -520,6 +520,15 @@ class Engine:
                     unsupported.append(msg)
             except RecursionError:
                 unsupported.append("%s: recursion limit" % qualname)
+            except (AttributeError, TypeError, KeyError, IndexError, NotImplementedError) as ex:
+                # a construct the engine's models do not cover made the engine itself fail on this path: the function is
+                # outside the verified subset (never a verdict by itself; report.py falls back to the labelled stand-ins)
+                import os as _os
+                if _os.environ.get("PYVC_TRACE_FAULT"):
+                    traceback.print_exc(limit=-8)
+                msg = "%s: engine model failed (%s: %s)" % (qualname, type(ex).__name__, str(ex)[:120])
+                if msg not in unsupported:
+                    unsupported.append(msg)
             for ob in st.obligations:
                 ob["path"] = "%s" % ("".join(str(int(d)) for d in path.trace)[:60] or "-")
                 if jobify is not None and not ob.get("trivial"):
